@@ -2,6 +2,8 @@ SPECIFICATION Spec
 CONSTANTS
   Shapes <- QuickShapes
   B = 3
+  FrameSizes = {1, 2, 3}
+  OutBufs = {1, 2, 4}
   RFaults <- QuickRFaults
   WFaults <- QuickWFaults
 INVARIANT PInv
